@@ -296,6 +296,123 @@ theorem C19_no_future_values (cfg : Cfg) (rules : Rules) (w : World) (ops : List
         · subst hko; simp only [World.ver, assoc_assocSet_same]; exact Nat.le_succ_of_le this
         · simp only [World.ver]; rw [assoc_assocSet_ne _ _ _ _ _ hko]; exact this
 
+/-! ### a stale answer needs a stale entry of the SAME object (soundness of the oracle's attribution)
+
+The harness attributes a value that differs from the fresh one to the open finding F11 only when the traced provenance of
+the value contains an older version of the mesh; a query that reads nothing older must be fresh.  For the lru caches that
+rule is this theorem: whatever the state of the caches (stale entries of OTHER objects included), a query on object `o`
+whose answer is older than `o`'s current mesh found, before it started, an entry of `o` itself that was already older. -/
+
+/-- every cached value OF OBJECT `o` was computed from the current version of `o` (entries of other objects may be stale) -/
+def FreshObj (w : World) (o : Nat) : Prop := ∀ m k s, (k, s) ∈ w.lruOf m → k.obj = o → s = w.ver o
+
+/-- what one access guarantees about object `o`, relative to the world `w` it started from -/
+structure GoodObj (w : World) (k : Key) (o : Nat) (r : World × Nat) : Prop where
+  version : r.1.version = w.version
+  fresh : FreshObj r.1 o
+  stamp : k.obj = o → r.2 = w.ver o
+
+theorem freshObj_insert (w : World) (o : Nat) (k : Key) (s : Nat) (l' : List (Key × Nat)) (hf : FreshObj w o)
+    (hs : k.obj = o → s = w.ver o)
+    (hl : ∀ e ∈ l', e = (k, s) ∨ e ∈ w.lruOf k.meth) (w' : World)
+    (hv : w'.version = w.version) (hlru : w'.lru = assocSet k.meth l' w.lru) : FreshObj w' o := by
+  intro m k' s' hmem hk'
+  have hver : ∀ o, w'.ver o = w.ver o := fun o => by simp [World.ver, hv]
+  rw [hver]
+  unfold World.lruOf at hmem
+  rw [hlru] at hmem
+  by_cases hm : m = k.meth
+  · subst hm
+    rw [assoc_assocSet_same] at hmem
+    rcases hl _ hmem with he | he
+    · cases he; exact hs hk'
+    · exact hf _ k' s' he hk'
+  · rw [assoc_assocSet_ne _ _ _ _ _ hm] at hmem
+    exact hf m k' s' hmem hk'
+
+theorem access_goodObj (rules : Rules) (o : Nat) :
+    ∀ (fuel : Nat) (w : World) (k : Key), FreshObj w o → GoodObj w k o (access rules fuel w k) := by
+  intro fuel
+  induction fuel with
+  | zero => intro w k hf; exact ⟨rfl, hf, fun h => by simp [access, h]⟩
+  | succ fuel ih =>
+    intro w k hf
+    unfold access
+    cases hlk : lookup k (w.lruOf k.meth) with
+    | some s =>
+      simp only
+      have hs : k.obj = o → s = w.ver o := fun h => hf _ k s (lookup_mem hlk) h
+      refine ⟨rfl, ?_, hs⟩
+      refine freshObj_insert w o k s ((k, s) :: (w.lruOf k.meth).filter (fun e => e.1 ≠ k)) hf hs ?_ _ rfl rfl
+      intro e he
+      rcases List.mem_cons.mp he with h | h
+      · left; exact h
+      · right; exact (List.mem_filter.mp h).1
+    | none =>
+      simp only
+      set w0 : World := { w with nextTmp := w.nextTmp + (rules.calls k.meth k.args (w.ver k.obj)).foldl (fun n c => max n c.recv) 0,
+                                  misses := w.misses + 1 } with hw0
+      have hf0 : FreshObj w0 o := hf
+      have key : ∀ (calls : List Call) (acc : World × Nat),
+          (acc.1.version = w.version ∧ FreshObj acc.1 o ∧ (k.obj = o → acc.2 = w.ver o)) →
+          let r := calls.foldl (fun (acc : World × Nat) c =>
+            let key : Key := ⟨if c.recv = 0 then k.obj else w.nextTmp + c.recv - 1, c.meth, c.args⟩
+            let (w', s) := access rules fuel acc.1 key
+            (w', if c.recv = 0 then min acc.2 s else acc.2)) acc
+          (r.1.version = w.version ∧ FreshObj r.1 o ∧ (k.obj = o → r.2 = w.ver o)) := by
+        intro calls
+        induction calls with
+        | nil => intro acc h; exact h
+        | cons c cs ihc =>
+          intro acc h
+          simp only [List.foldl_cons]
+          apply ihc
+          obtain ⟨hv, hfr, hst⟩ := h
+          have g := ih acc.1 ⟨if c.recv = 0 then k.obj else w.nextTmp + c.recv - 1, c.meth, c.args⟩ hfr
+          refine ⟨g.version.trans hv, g.fresh, ?_⟩
+          intro hko
+          by_cases hr : c.recv = 0
+          · have : (access rules fuel acc.1 ⟨if c.recv = 0 then k.obj else w.nextTmp + c.recv - 1, c.meth, c.args⟩).2
+                = w.ver o := by
+              rw [g.stamp (by simp [hr, hko])]; simp [World.ver, hv]
+            simp only [hr, if_true] at this ⊢
+            rw [this, hst hko]; exact Nat.min_self _
+          · simp only [hr, if_false]; exact hst hko
+      have hres := key (rules.calls k.meth k.args (w.ver k.obj)) (w0, w0.ver k.obj) ⟨rfl, hf0, fun h => by simp [hw0, World.ver, h]⟩
+      simp only at hres
+      obtain ⟨hv, hfr, hst⟩ := hres
+      refine ⟨hv, ?_, hst⟩
+      set r := (rules.calls k.meth k.args (w.ver k.obj)).foldl (fun (acc : World × Nat) c =>
+            let key : Key := ⟨if c.recv = 0 then k.obj else w.nextTmp + c.recv - 1, c.meth, c.args⟩
+            let (w', s) := access rules fuel acc.1 key
+            (w', if c.recv = 0 then min acc.2 s else acc.2)) (w0, w0.ver k.obj) with hr
+      refine freshObj_insert r.1 o k r.2 (((k, r.2) :: r.1.lruOf k.meth).take (r.1.capOf k.meth)) hfr ?_ ?_ _ rfl rfl
+      · intro hko; rw [hst hko]; simp [World.ver, hv]
+      · intro e he
+        rcases List.mem_cons.mp (List.mem_of_mem_take he) with h | h
+        · left; exact h
+        · right; exact h
+
+/-- **C19_stale_needs_stale_entry** (the tree as it is, ANY state of the caches, any nested-call graph): if a query on an
+object returns a value that was not computed from the object's current mesh, then the caches held — before the query — an
+entry of THAT object which was already out of date.  Stale entries of other objects, evictions and temporaries cannot make a
+query stale.  (Contrapositive: a query that meets no out-of-date entry of its own object returns the value of the current
+mesh — the rule by which the oracle refuses to attribute an unexplained deviation to F11.) -/
+theorem C19_stale_needs_stale_entry (rules : Rules) (fuel : Nat) (w : World) (k : Key)
+    (h : (access rules fuel w k).2 ≠ w.ver k.obj) :
+    ∃ m k' s, (k', s) ∈ w.lruOf m ∧ k'.obj = k.obj ∧ s ≠ w.ver k.obj := by
+  by_contra hne
+  apply h
+  refine (access_goodObj rules k.obj fuel w k ?_).stamp rfl
+  intro m k' s hm hk
+  by_contra hs
+  exact hne ⟨m, k', s, hm, hk, hs⟩
+
+/-- … and the query leaves no out-of-date entry of that object behind (so the next query on it is fresh as well) -/
+theorem C19_fresh_object_stays_fresh (rules : Rules) (fuel : Nat) (w : World) (k : Key) (o : Nat) (hf : FreshObj w o) :
+    FreshObj (access rules fuel w k).1 o :=
+  (access_goodObj rules o fuel w k hf).fresh
+
 /-! ### the tree as it is: counterexamples (each replayed on the implementation by the harness) -/
 
 def w0 : World := World.init [(0, 1), (1, 1)]
@@ -322,6 +439,12 @@ theorem C19_eviction_refreshes :
 /-- non-vacuity of the partial theorem: two objects, interleaved, nested calls, evictions -/
 example : (run ⟨false⟩ r0 w0 [.query ⟨1, 1, 0⟩, .query ⟨2, 1, 0⟩, .query ⟨1, 0, 0⟩, .query ⟨1, 1, 0⟩]).2
     = [.value 0 0 2, .value 0 0 2, .value 0 0 1, .value 0 1 1] := by decide
+
+/-- non-vacuity of `C19_stale_needs_stale_entry`: after [adjacency on object 1, modify object 1] the caches hold stale entries
+of object 1 only; object 2 is `FreshObj` (hypothesis holds non-trivially: the lists are not empty) and its query is fresh,
+while the query on object 1 is stale and the witness entry exists -/
+example : let w1 := (run ⟨false⟩ r0 w0 [.query ⟨1, 1, 0⟩, .modify 1]).1
+    (w1.lruOf 0 ≠ [] ∧ (access r0 depth w1 ⟨2, 1, 0⟩).2 = w1.ver 2 ∧ (access r0 depth w1 ⟨1, 1, 1⟩).2 ≠ w1.ver 1) := by decide
 
 /-- the generated capacity table names every cached method once -/
 theorem C19_lru_sizes_positive : Femio.Gen.lruSizes.all (fun e => decide (0 < e.2)) = true := by decide
